@@ -118,10 +118,18 @@ var wdWhat string
 var wdInput map[string]any
 var wdStart time.Time
 
+// when set, the call about to be made is also written to this file, so that a process killed by the runtime
+// (out of memory under the address-space limit, fatal error) can be attributed to its input
+var inflightPath = os.Getenv("VERIF_INFLIGHT")
+
 func watch(what string, input map[string]any) {
 	wdMu.Lock()
 	wdWhat, wdInput, wdStart = what, input, time.Now()
 	wdMu.Unlock()
+	if inflightPath != "" {
+		b, _ := json.Marshal(map[string]any{"what": what, "input": input})
+		os.WriteFile(inflightPath, b, 0o644)
+	}
 }
 func unwatch() {
 	wdMu.Lock()
